@@ -91,7 +91,7 @@ func init() {
 			"same DID; EVERY member of suffix data and delta modified at one point (value change, removal) is rejected or changes the DID. distinct_nontrivial = distinct " +
 			"(builder, algorithm, origin?, type?, patch actions) request shapes",
 		Cases: func(master uint64, tier string) []Case {
-			n := 260
+			n := 800
 			if tier == "thorough" {
 				n = 100000
 			}
@@ -110,7 +110,7 @@ func init() {
 			"wrong length field, digest shorter / longer, every unsupported code < 0x60, the other supported algorithm; GetMultihashCode / IsComputedUsingMultihashAlgorithms vs the prefix. " +
 			"distinct_nontrivial = distinct (kind, algorithm, size class) objects",
 		Cases: func(master uint64, tier string) []Case {
-			n := 200
+			n := 600
 			if tier == "thorough" {
 				n = 25000
 			}
